@@ -512,24 +512,30 @@ structure Subdiv where
   n : Nat
   deriving Repr
 
+/-- second half of mpn_gcd_subdiv_step (gcd_subdiv_step.c:120-166): the locals la ≠ lb after the
+    subtraction are put in order, divided, and the hooks reported.  `q1` = hook calls so far. -/
+def subdivDivide (la lb : Nat) (sw : Bool) (q1 : List (Nat × Bool)) (a b : Nat) : Subdiv :=
+  let lo := if la > lb then lb else la                       -- "Arrange so that a < b"
+  let hi := if la > lb then la else lb
+  let sw := if la > lb then !sw else sw
+  let q := hi / lo                                            -- mpn_tdiv_qr
+  let r := hi % lo
+  if r = 0 then ⟨q1, some (lo, if sw then 1 else 0), a, b, 0⟩  -- hook (ap, q, swapped)
+  else if sw then ⟨q1 ++ [(q, sw)], none, r, lo, nlimbs lo⟩   -- hook (q, swapped); return an
+  else ⟨q1 ++ [(q, sw)], none, lo, r, nlimbs lo⟩
+
+/-- first half (gcd_subdiv_step.c:95-118) with the local pointers already ordered, la < lb;
+    `sw` = the local pointers are swapped w.r.t. the caller's. -/
+def subdivOrdered (la lb : Nat) (sw : Bool) (a b : Nat) : Subdiv :=
+  if la = 0 then ⟨[], some (lb, if sw then 0 else 1), a, b, 0⟩     -- an <= s: hook (bp, d = swapped ^ 1)
+  else
+    let lb := lb - la                                                -- mpn_sub (bp, bp, bn, ap, an)
+    if la = lb then ⟨[], some (lb, if sw then 1 else 0), a, b, 0⟩   -- found gcd: hook (bp, d = swapped)
+    else subdivDivide la lb sw [(1, sw)] a b                         -- hook (q = 1, swapped)
+
 def subdivStep (a b : Nat) : Subdiv :=
   if a = b then ⟨[], some (a, -1), a, b, 0⟩                 -- an == bn, c == 0: hook (ap, d = -1)
-  else
-    -- arrange la < lb; `sw` = the local pointers are swapped w.r.t. the caller's
-    let (la, lb, sw) := if a > b then (b, a, true) else (a, b, false)
-    if la = 0 then ⟨[], some (lb, if sw then 0 else 1), a, b, 0⟩   -- an <= s: hook (bp, d = swapped ^ 1)
-    else
-      let lb := lb - la                                         -- mpn_sub (bp, bp, bn, ap, an)
-      if la = lb then ⟨[], some (lb, if sw then 1 else 0), a, b, 0⟩  -- found gcd: hook (bp, d = swapped)
-      else
-        let qs1 := [(1, sw)]                                    -- hook (q = 1, swapped)
-        let (la, lb, sw) := if la > lb then (lb, la, !sw) else (la, lb, sw)
-        let q := lb / la                                        -- mpn_tdiv_qr
-        let lb := lb % la
-        if lb = 0 then ⟨qs1, some (la, if sw then 1 else 0), a, b, 0⟩   -- hook (ap, q, swapped)
-        else
-          let (ra, rb) := if sw then (lb, la) else (la, lb)
-          ⟨qs1 ++ [(q, sw)], none, ra, rb, nlimbs la⟩           -- hook (q, swapped); return an
+  else if a > b then subdivOrdered b a true a b else subdivOrdered a b false a b
 
 /-- new size after mpn_matrix22_mul1_inverse_vector: n -= (rp[n-1] | bp[n-1]) == 0. -/
 def shrinkN (a b n : Nat) : Nat := if limbAt a (n - 1) ||| limbAt b (n - 1) = 0 then n - 1 else n
@@ -567,7 +573,7 @@ def gcd2Loop : Nat → Nat → Nat → Nat × Nat
       else (u, v)
 
 def gcd_2 (u v : Nat) : Nat :=
-  let (u, v) := gcd2Loop 256 u v
+  let (u, v) := gcd2Loop (u + v) u v
   if u = v then u
   else
     let u1 := u / B; let u0 := u % B; let v1 := v / B; let v0 := v % B
@@ -584,7 +590,7 @@ def GCDEXT_DC_THRESHOLD : Nat := 342
     non-zero top limb, U with at least as many bits as V. -/
 def mpn_gcd (U usize V n : Nat) : Nat :=
   let step (U : Nat) : Nat :=
-    match gcdLehmerLoop (64 * n + 64) U V n with
+    match gcdLehmerLoop (U + V + 1) U V n with
     | .inr g => g
     | .inl (a, b, n) =>
         if n = 1 then gcd_1 [a] b                                   -- gcd.c:247
@@ -630,7 +636,7 @@ def gcdextLehmerLoop : Nat → Nat → Nat → Nat → Nat → Nat → (Nat × N
 
 /-- mpn_gcdext_lehmer_n (gcdext_lehmer.c:133): returns (G, S). -/
 def gcdext_lehmer_n (a b n : Nat) : Nat × Int :=
-  match gcdextLehmerLoop (64 * n + 64) a b n 0 1 with
+  match gcdextLehmerLoop (a + b + 1) a b n 0 1 with
   | .inr r => r
   | .inl (a, b, u0, u1) =>
       if a = b then (a, pickCofactor u0 u1 (-1))                     -- gcdext_lehmer.c:243
